@@ -183,6 +183,8 @@ type stubEVM struct {
 	rets      [][]byte
 	calls     []evmCall
 	hookCalls int
+	hookFails int // post-tx hook failures
+	failures  int // ApplyMessage errors and VM reverts
 	ncall     uint64
 }
 
@@ -191,12 +193,14 @@ func (e *stubEVM) GetNonce(ctx sdk.Context, a common.Address) uint64 { return 0 
 func (e *stubEVM) PostTxProcessing(ctx sdk.Context, msg core.Message, receipt *ethtypes.Receipt) error {
 	e.hookCalls++
 	if rt.Bool("hook-fails") {
+		e.hookFails++
 		return errHook
 	}
 	return nil
 }
 func (e *stubEVM) ApplyMessage(ctx sdk.Context, msg core.Message, tracer vm.EVMLogger, commit bool) (*evmtypes.MsgEthereumTxResponse, error) {
 	if rt.Bool("apply-errors") {
+		e.failures++
 		return nil, errEVM
 	}
 	vmOK := !rt.Bool("vm-reverts")
@@ -204,6 +208,7 @@ func (e *stubEVM) ApplyMessage(ctx sdk.Context, msg core.Message, tracer vm.EVML
 	res := &evmtypes.MsgEthereumTxResponse{Ret: rt.Bytes("evm-ret")}
 	e.rets = append(e.rets, res.Ret)
 	if !vmOK {
+		e.failures++
 		res.VmError = "execution reverted"
 		return res, nil
 	}
